@@ -58,11 +58,29 @@ package p2p
 
 //@ ghost gChallengeOK Bool
 //@ ghost gVerifiedKey Iface
+//@ ghost gLocEph Ref
+//@ ghost gRemEph Ref
+//@ ghost gLoEph Ref
+//@ ghost gHiEph Ref
+//@ ghost gChal Ref
+
 //@ func MakeSecretConnection
 //@   props C20
 //@   requires conn != nil && locPrivKey != nil
 // (handshake I/O on conn and a fresh SecretConnection; nothing of the switch is touched: assumed frame)
 //@   trusted-assigns allbut(Switch, NodeInfo)
+// the challenge both ends sign binds BOTH ephemeral keys of this session (lower one first), and it is this challenge
+// that the remote signature is verified over
+//@   atcall genEphKeys set gLocEph = result0
+//@   atcall shareEphPubKey set gRemEph = result0
+//@   atcall sort32 assert [session-keys-sorted] (arg0 == gLocEph && arg1 == gRemEph) || (arg0 == gRemEph && arg1 == gLocEph)
+//@   atcall sort32 set gLoEph = result0
+//@   atcall sort32 set gHiEph = result1
+//@   atcall genNonces assert [nonces-from-both-session-keys] arg0 == gLoEph && arg1 == gHiEph
+//@   atcall genChallenge assert [challenge-binds-both-session-keys] arg0 == gLoEph && arg1 == gHiEph && calls(sort32) == 1
+//@   atcall genChallenge set gChal = result
+//@   atcall signChallenge assert [signs-the-challenge-of-this-session] arg0 == gChal
+//@   atcall VerifyBytes assert [verified-after-the-challenge-was-derived] calls(genChallenge) == 1 && calls(signChallenge) == 1
 //@   atcall VerifyBytes set gChallengeOK = result
 //@   atcall VerifyBytes set gVerifiedKey = arg_recv
 //@   onwrite SecretConnection.remPubKey assert [identity-is-the-key-that-signed-the-challenge] gChallengeOK && newval == gVerifiedKey
